@@ -721,8 +721,11 @@ def gen_res():
     css = css0 + ('@counter-style cyc { system: cyclic; symbols: a b c }\n@counter-style sym { system: symbolic; symbols: "*" "+" }\n@counter-style alp { system: alphabetic; symbols: x y }\n'
                   '@counter-style add { system: additive; additive-symbols: 5 "V", 1 "I", 0 "z" }\n@counter-style add0 { system: additive; additive-symbols: 5 "V", 0 "z" }\n@counter-style fix { system: fixed -1; symbols: p q r }\n'
                   '@counter-style num { system: numeric; symbols: "0" "1"; negative: "(" ")"; pad: 4 "_" }\n'
+                  '@counter-style fa { system: fixed; symbols: a; fallback: fb } @counter-style fb { system: fixed; symbols: b; fallback: fa } @counter-style fs { system: additive; additive-symbols: 5 V; fallback: fs } @counter-style fr { system: cyclic; symbols: r; range: 100 200; fallback: fa }\n'
+                  '@counter-style sy2 { system: symbolic; symbols: "*" "+"; range: -3 3 } @counter-style al2 { system: alphabetic; symbols: x y; range: -3 3 } @counter-style nu2 { system: numeric; symbols: "0" "1"; range: -3 3 }\n'
+                  '.k2 { counter-reset: d -2 } .k2 span { counter-increment: d } .k2 span::before { content: counter(d, fa) "." counter(d, fs) "." counter(d, fr) "." counter(d, sy2) "." counter(d, al2) "." counter(d, nu2) " " }\n'
                   '.k { counter-reset: c -3 } .k span { counter-increment: c }\n.k span::before { content: counter(c, cyc) "." counter(c, sym) "." counter(c, alp) "." counter(c, add) "." counter(c, add0) "." counter(c, fix) "." counter(c, num) "." counter(c, symbols(cyclic "u" "v")) " " }\n')
-    body = ('<p class=k>' + "".join('<span>k%03d</span> ' % i for i in range(1, 9)) + '</p><ol start="2147483647"><li>l001</li><li>l002</li><li>l003</li></ol><ol start="-2147483649" style="list-style: cyc"><li>l004</li><li>l005</li></ol>'
+    body = ('<p class=k2>' + "".join('<span>j%03d</span> ' % i for i in range(1, 8)) + '</p><ol style="list-style: fa"><li>l006</li><li>l007</li><li>l008</li></ol>' + '<p class=k>' + "".join('<span>k%03d</span> ' % i for i in range(1, 9)) + '</p><ol start="2147483647"><li>l001</li><li>l002</li><li>l003</li></ol><ol start="-2147483649" style="list-style: cyc"><li>l004</li><li>l005</li></ol>'
             '<table cellspacing="-99999999999999999999" cellpadding="99999999999999999999" width="-99999999999999999999" border="-1" height="9e99"><tr><td width="-5" height="1e999" colspan="3">m001</td></tr></table>'
             '<table cellspacing="-99999999999999999999"><tr><td>m005 m006 m007</td></tr></table><table width="99999999999999999999"><tr><td>m008 m009</td></tr></table><table cellpadding="-99999999999999999999"><tr><td>m010</td></tr></table>'
             '<table cellspacing="1e3" width="100000%"><tr><td>m002</td></tr></table><hr size="-99999999999999999999" width="99999999999999999999"><font size="99999999999999999999">m003</font> <font size="-99999999999999999999">m004</font>' + text)
@@ -1653,7 +1656,7 @@ def gen_wave4():
     css = page_css(240, 150, 10) + BASE + 'p.l::after { content: leader("."); font-size: 0.5px } p.m::after { content: leader("") } p.n::after { content: leader(dotted) "x"; font-size: 0 } p.o::after { content: leader(" ") "y" }\n'
     W = words("w", 12)
     svgtxt = '<svg xmlns="http://www.w3.org/2000/svg" width="60" height="20"><text><rect width="5" height="5"/></text><text x="30" y="10" text-anchor="middle"><tspan>sv05</tspan><tspan>sv06</tspan></text><text text-anchor="end"><a href="#x"><tspan>sv07</tspan></a></text><text/></svg>'
-    scenario("feat-19", "feat", doc(css, '<p class=l>%s</p><p class=m>%s</p><p class=n>%s</p><p class=o>%s</p>' % (W[0], W[1], W[2], W[3]) + svgtxt + para(W[4:])), expect=dict(margin=True, page_w=240, page_h=150, line_height=12, sentinels=W))
+    scenario("feat-19", "feat", doc(css, '<p class=l>%s</p><p class=m>%s</p><p class=n>%s</p><p class=o>%s</p>' % (W[0], W[1], W[2], W[3]) + svgtxt + '<p>ig01 <span style="display: inline-grid">ig02</span> ig03 <span style="display: inline-flex">ig04</span></p>' + para(W[4:])), expect=dict(margin=True, page_w=240, page_h=150, line_height=12, sentinels=W))
     css = "@page { size: 200px 140px; margin: 10px; visibility: hidden; bleed: 10px; marks: crop cross; background: red }\n" + BASE
     W = words("w", 10)
     scenario("pag-32", "pag", doc(css, para(W[:5]) + para(W[5:])), expect=dict(line_height=12, sentinels=W))
@@ -1664,6 +1667,44 @@ def gen_wave4():
            "h2 { bookmark-level: 1; -weasy-bookmark-label: \"W \" content(text); -weasy-string-set: t content() } p { -weasy-hyphens: manual; -weasy-bookmark-level: none }\n")
     W = words("w", 16)
     scenario("feat-20", "feat", doc(css, '<h2>h001</h2>' + para(W[:8]) + '<h2>h002</h2>' + para(W[8:])), expect=dict(margin=True, line_height=12, sentinels=W + ["h001", "h002"]))
+
+    # table-05: fixed table layout, rows longer than the grid fixed by the first row: a spanning cell crossing the right edge,
+    # followed by more cells; rows with fewer cells; a colspan in last position
+    css = page_css(260, 200, 10) + BASE + "table { table-layout: fixed; width: 200px; border-collapse: separate; border-spacing: 0 } td { padding: 0 }\n"
+    W = words("w", 20)
+    rows = ['<tr><td>%s</td><td>%s</td></tr>' % (W[0], W[1]), '<tr><td>%s</td><td colspan=3>%s</td><td>%s</td><td>%s</td></tr>' % (W[2], W[3], W[4], W[5]), '<tr><td colspan=5>%s</td><td>%s</td></tr>' % (W[6], W[7]),
+            '<tr><td>%s</td></tr>' % W[8], '<tr><td></td><td></td><td></td><td colspan=2>%s</td><td>%s</td></tr>' % (W[9], W[10])]
+    body = '<table>%s</table><table style="width: 0">%s</table>' % ("".join(rows), rows[1]) + para(W[11:])
+    scenario("table-05", "table", doc(css, body), expect=dict(margin=True, page_w=260, page_h=200, line_height=12, sentinels=W[11:] + W[:2]))
+
+    # feat-21: visibility: visible content inside hidden boxes (blocks, inline boxes, table cells, list items): drawn; the hidden text is not
+    css = page_css(240, 150, 10) + BASE + ".h { visibility: hidden } .v { visibility: visible } .c { visibility: collapse }\nul { list-style: none; margin: 0; padding: 0 }\n"
+    V = words("v", 8); H = words("x", 8); W = words("w", 6)
+    body = ('<div class=h>%s <span class=v>%s</span> %s</div><p>%s <span class=h>%s <b class=v>%s</b> %s</span> %s</p><table><tr class=h><td>%s</td><td class=v>%s</td></tr></table><ul class=h><li>%s</li><li class=v>%s</li></ul><p class=h><span><span><i class=v>%s</i></span></span></p>' %
+            (H[0], V[0], H[1], V[1], H[2], V[2], H[3], V[3], H[4], V[4], H[5], V[5], V[6])) + para(W)
+    scenario("feat-21", "feat", doc(css, body), expect=dict(flows={"main": [V[0], V[1], V[2], V[3], V[4], V[5], V[6]] + W}, margin=True, page_w=240, page_h=150, conserve=True, line_height=12))
+
+    # pag-33: @page selector LISTS of mixed specificity with a competing rule in between
+    css = ("@page { size: 220px 150px; margin: 10px; @bottom-center { content: \"pg\" counter(page) \"of\" counter(pages); font-family: ahem; font-size: 8px; line-height: 8px } }\n"
+           "@page :left, :first { margin-top: 50px }\n@page :right { margin-top: 20px }\n@page :blank, :right { margin-left: 16px }\n@page :left { margin-left: 12px }\n" + BASE + "p { orphans: 1; widows: 1 }\n")
+    body, flow = [], []
+    wi = 1
+    for k in (30, 44, 28, 36):
+        ws = words("w", k, wi); wi += k; flow += ws
+        body.append(para(ws))
+    scenario("pag-33", "pag", doc(css, "\n".join(body)), expect=dict(flows={"main": flow}, margin=True, page_w=220, page_h=150, conserve=True, line_height=12,
+                                                                   page_margins={"first": [50, 10, 10, 16], "left": [50, 10, 10, 12], "right": [20, 10, 10, 16]}))
+
+    # pag-34: a forced break meeting an 'avoid' of any kind at the same break point: the forced break wins
+    css = page_css(220, 150, 10) + BASE + "p { margin: 0 }\n"
+    body, flow, forced = [], [], []
+    wi = 1
+    for av, fb in [("avoid", "page"), ("avoid-page", "page"), ("avoid-column", "page"), ("avoid-column", "right"), ("avoid", "left"), ("avoid-column", "always")]:
+        a = words("w", 3, wi); wi += 3; b = words("w", 3, wi); wi += 3; flow += a + b
+        body.append('<p style="break-after: %s">%s</p>' % (av, " ".join(a)))
+        body.append('<p style="break-before: %s; break-inside: avoid">%s</p>' % (fb, " ".join(b)))
+        forced.append(dict(word=b[0], side={"page": "any", "always": "any"}.get(fb, fb)))
+    scenario("pag-34", "pag", doc(css, "\n".join(body)), expect=dict(flows={"main": flow}, margin=True, page_w=220, page_h=150, conserve=True, line_height=12, forced=forced))
 
 def gen_reach():
     # documents aimed at range-over-map sites the evidence listed as never visited with >= 2 keys
